@@ -3,6 +3,7 @@ package checks
 import (
 	"bytes"
 	"fmt"
+	"unicode/utf8"
 
 	cose "github.com/veraison/go-cose"
 
@@ -133,7 +134,7 @@ func runC12(c *Ctx) {
 			p.HashValue = []byte{}
 		}
 		p.PreimageContentType = mon.Pick[any](r, nil, nil, "text/plain", uint64(50), uint8(1), int64(60), int(7), int64(-3), 2.5, []byte("x"), true, "50", "065", "0", "65535", "application/cose; cose-type=\"cose-sign1\"", "1/2", uint64(65535), uint64(65536), uint16(0))
-		p.Location = mon.Pick(r, "", "", "", "https://example.com/a", "loc", "https://bucket.example/50%off.bin", "s3://my bucket/key", "://", "file:///tmp/x", "urn:uuid:6e8bc430-9c3a-11d9-9669-0800200c9a66", "http://[::1]:80/%zz", "h\u00e9llo://\u65e5\u672c", " leading-space", " ", "\t\n", "\u00a0", "\u2003\u2028", "\x00")
+		p.Location = mon.Pick(r, "", "", "", "https://example.com/a", "loc", "https://bucket.example/50%off.bin", "s3://my bucket/key", "://", "file:///tmp/x", "urn:uuid:6e8bc430-9c3a-11d9-9669-0800200c9a66", "http://[::1]:80/%zz", "h\u00e9llo://\u65e5\u672c", " leading-space", " ", "\t\n", "\u00a0", "\u2003\u2028", "\x00", "\xff\xfe", "loc\xc3", "\xed\xa0\x80")
 		if i%11 == 3 && rawMode > 2 {
 			// the caller's protected map already holds exactly the governed values (and no alg)
 			h.Protected = cose.ProtectedHeader{}
@@ -225,7 +226,11 @@ func runC12(c *Ctx) {
 		}
 		rec.Event("VerifyHashEnvelope(own output)")
 		if err != nil || m == nil {
-			rec.Violate("own-envelope-refused", fmt.Sprintf("raw=%d", rawMode), fmt.Sprintf("VerifyHashEnvelope refuses an envelope SignHashEnvelope just produced: %v", err), in)
+			key := fmt.Sprintf("raw=%d", rawMode)
+			if ct, isText := p.PreimageContentType.(string); !utf8.ValidString(p.Location) || (isText && !utf8.ValidString(ct)) {
+				key = c12keyNotUTF8 // input class of known finding F4
+			}
+			rec.Violate("own-envelope-refused", key, fmt.Sprintf("VerifyHashEnvelope refuses an envelope SignHashEnvelope just produced: %v", err), in)
 			return
 		}
 		if !bytes.Equal(m.Payload, p.HashValue) {
@@ -249,6 +254,22 @@ func runC12(c *Ctx) {
 		}
 	})
 
+	// fixed witness of known finding F4, so that it is reported by every run
+	{
+		p := cose.HashEnvelopePayload{HashAlgorithm: cose.AlgorithmSHA256, HashValue: make([]byte, 32), Location: "loc\xff\xfe"}
+		in := map[string]any{"family": "fixed witness", "location": "6c6f63fffe"}
+		var env []byte
+		var err error
+		if !guard(rec, "SignHashEnvelope(fixed witness)", in, func() {
+			env, err = cose.SignHashEnvelope(gen.Entropy, k.Signer, cose.Headers{Protected: cose.ProtectedHeader{}, Unprotected: cose.UnprotectedHeader{}}, p)
+		}) && err == nil {
+			rec.Eval(1)
+			in["envelope"] = mon.FullHex(env)
+			if m, verr := cose.VerifyHashEnvelope(k.Verifier, env); verr != nil || m == nil {
+				rec.Violate("own-envelope-refused", c12keyNotUTF8, fmt.Sprintf("VerifyHashEnvelope refuses an envelope SignHashEnvelope just produced: %v", verr), in)
+			}
+		}
+	}
 	// ------------------------------------------------------------ verifier --
 	type opt struct {
 		name string
@@ -459,3 +480,7 @@ func sortStrings(a []string) {
 		}
 	}
 }
+
+// c12keyNotUTF8 is the witness class of known finding F4: a Go string that is not valid UTF-8 given as
+// location or (text) content type.
+const c12keyNotUTF8 = "location-or-content-type-not-valid-utf8-emitted-as-cbor-text"
